@@ -598,24 +598,32 @@ func (tree *MutableTree) enableFastStorageAndCommitIfNotEnabled() (bool, error) 
 }
 
 func (tree *MutableTree) enableFastStorageAndCommit() error {
-	var err error
+	_, latestVersion, err := tree.ndb.getLatestVersion()
+	if err != nil {
+		return err
+	}
 
-	itr := NewIterator(nil, nil, true, tree.ImmutableTree)
+	// The fast index always describes the latest version (it is labelled with it below),
+	// also when an older version is loaded.
+	latestTree := tree.ImmutableTree
+	if tree.version > 0 && tree.version != latestVersion {
+		latestTree, err = tree.GetImmutable(latestVersion)
+		if err != nil {
+			return err
+		}
+	}
+
+	itr := NewIterator(nil, nil, true, latestTree)
 	defer itr.Close()
 	var upgradedFastNodes uint64
 	for ; itr.Valid(); itr.Next() {
 		upgradedFastNodes++
-		if err = tree.ndb.SaveFastNodeNoCache(fastnode.NewNode(itr.Key(), itr.Value(), tree.version)); err != nil {
+		if err = tree.ndb.SaveFastNodeNoCache(fastnode.NewNode(itr.Key(), itr.Value(), latestTree.version)); err != nil {
 			return err
 		}
 	}
 
 	if err = itr.Error(); err != nil {
-		return err
-	}
-
-	_, latestVersion, err := tree.ndb.getLatestVersion()
-	if err != nil {
 		return err
 	}
 
